@@ -15,6 +15,15 @@ Extracted (fail closed on every other shape; the recognisers are those of transl
     `if v <= 0: raise`, `if v < lo or v > hi: raise`, unconditional or under `isinstance(v, int | float)` with a
     rejecting else branch; integer bounds; `if len(v) != n: raise`; the geometry subclasses add nothing
                                                                                               -> src_setter_guards
+  * the test that decides whether a model RUNS — ModelGroup.__iter__: `for m in self.models: if T: yield m`
+    (or `if not T: continue` + `yield m`, or a generator expression / comprehension over self.models with `if T`) — and
+    the test by which Observation.validate_steps decides that the model a swept key addresses is enabled — the one `if`
+    that raises ValueError about the flag: `if not F: raise` — with T / F one of `x.enabled`, `bool(x.enabled)`,
+    `processor.get(<key>)` (FTruthy), `... is True` (FIsTrue), `... == True` (FEqTrue)
+                                                                        -> src_exec_flag_test, src_validate_flag_test
+  * the names Arguments.__setattr__ hands to the unmodified object.__setattr__ instead of refusing / storing them as
+    arguments: `if key == "<name>": super().__setattr__(key, value); return` (or `key in ("a", "b")`), then
+    `if key not in self._arguments: raise AttributeError`, then `self._arguments[key] = value`  -> src_args_passthrough
 """
 from __future__ import annotations
 
@@ -25,7 +34,7 @@ import ast
 from harness.core import TranslationError
 
 from . import c06, c12
-from .common import HEADER, body_no_doc, find_func, parse
+from .common import HEADER, body_no_doc, fail, find_func, parse
 
 PRELUDE = ("From Coq Require Import ZArith List String.\nFrom PyxelV Require Import Model.Keys Model.KeysWorld.\n"
            "Import ListNotations.\nOpen Scope string_scope.\n")
@@ -45,8 +54,172 @@ def extract(repo: Path) -> dict:
         ("update_processor", c06.copy_site(find_func(fit, "update_processor", "ModelFittingDataTree"), "processor",
                                            "update_processor")),
     ]
+    obs = parse(repo, "pyxel/observation/observation.py")
+    mf = parse(repo, "pyxel/pipelines/model_function.py")
     return dict(proc_fields=c06.custom_copy(proc, "Processor"), group_fields=c06.custom_copy(grp, "ModelGroup"), sites=sites,
-                guards=setter_guards(repo))
+                guards=setter_guards(repo),
+                exec_test=exec_flag_test(find_func(grp, "__iter__", "ModelGroup")),
+                validate_test=validate_flag_test(find_func(obs, "validate_steps", "Observation")),
+                passthrough=args_passthrough(find_func(mf, "__setattr__", "Arguments")))
+
+
+# ------------------------------------------------------------------------------------------ readers of the enabled flag
+
+
+def _flag_expr(e: ast.AST) -> bool:
+    """an expression that reads a model's enabled flag: `<x>.enabled` or `<p>.get(<key>)`"""
+    if isinstance(e, ast.Attribute) and e.attr == "enabled":
+        return True
+    return (isinstance(e, ast.Call) and isinstance(e.func, ast.Attribute) and e.func.attr == "get"
+            and len(e.args) == 1 and not e.keywords)
+
+
+def _is_true(e: ast.AST) -> bool:
+    return isinstance(e, ast.Constant) and e.value is True
+
+
+def flag_test(e: ast.AST, where: str) -> str:
+    """the test `e` applies to the flag, as a flagtest of Model/Keys.v (positive polarity)"""
+    if _flag_expr(e):
+        return "FTruthy"
+    if isinstance(e, ast.Call) and isinstance(e.func, ast.Name) and e.func.id == "bool" and len(e.args) == 1 \
+            and not e.keywords and _flag_expr(e.args[0]):
+        return "FTruthy"
+    if isinstance(e, ast.Compare) and len(e.ops) == 1 and _flag_expr(e.left) and _is_true(e.comparators[0]):
+        if isinstance(e.ops[0], ast.Is):
+            return "FIsTrue"
+        if isinstance(e.ops[0], ast.Eq):
+            return "FEqTrue"
+    fail(e, f"{where}: test on the enabled flag of an unknown shape")
+
+
+def neg_flag_test(e: ast.AST, where: str) -> str:
+    """`e` is the condition under which the model is NOT enabled: not T / T is not True / T != True"""
+    if isinstance(e, ast.UnaryOp) and isinstance(e.op, ast.Not):
+        return flag_test(e.operand, where)
+    if isinstance(e, ast.Compare) and len(e.ops) == 1 and _flag_expr(e.left) and _is_true(e.comparators[0]):
+        if isinstance(e.ops[0], ast.IsNot):
+            return "FIsTrue"
+        if isinstance(e.ops[0], ast.NotEq):
+            return "FEqTrue"
+    fail(e, f"{where}: negated test on the enabled flag of an unknown shape")
+
+
+def _self_models(e: ast.AST) -> bool:
+    return isinstance(e, ast.Attribute) and e.attr == "models" and isinstance(e.value, ast.Name) and e.value.id == "self"
+
+
+def exec_flag_test(fn: ast.FunctionDef) -> str:
+    where = "ModelGroup.__iter__"
+    body = body_no_doc(fn)
+    if len(body) != 1:
+        fail(fn, f"{where}: expected one statement")
+    st = body[0]
+    # return / yield from  (m for m in self.models if T)  |  iter([m for m in self.models if T])
+    val = None
+    if isinstance(st, ast.Return):
+        val = st.value
+    elif isinstance(st, ast.Expr) and isinstance(st.value, ast.YieldFrom):
+        val = st.value.value
+    if val is not None:
+        if isinstance(val, ast.Call) and isinstance(val.func, ast.Name) and val.func.id == "iter" and len(val.args) == 1:
+            val = val.args[0]
+        if isinstance(val, (ast.GeneratorExp, ast.ListComp)) and len(val.generators) == 1:
+            g = val.generators[0]
+            if _self_models(g.iter) and isinstance(g.target, ast.Name) and isinstance(val.elt, ast.Name) \
+                    and val.elt.id == g.target.id and len(g.ifs) == 1:
+                return flag_test(g.ifs[0], where)
+        fail(st, f"{where}: unknown shape")
+    if not (isinstance(st, ast.For) and _self_models(st.iter) and isinstance(st.target, ast.Name) and not st.orelse):
+        fail(st, f"{where}: expected `for m in self.models:`")
+    m = st.target.id
+
+    def yields_m(x):
+        return isinstance(x, ast.Expr) and isinstance(x.value, ast.Yield) and isinstance(x.value.value, ast.Name) \
+            and x.value.value.id == m
+
+    b = st.body
+    if len(b) == 1 and isinstance(b[0], ast.If) and not b[0].orelse and len(b[0].body) == 1 and yields_m(b[0].body[0]):
+        return flag_test(b[0].test, where)
+    if len(b) == 2 and isinstance(b[0], ast.If) and not b[0].orelse and len(b[0].body) == 1 \
+            and isinstance(b[0].body[0], ast.Continue) and yields_m(b[1]):
+        return neg_flag_test(b[0].test, where)
+    fail(st, f"{where}: unknown loop body")
+
+
+def validate_flag_test(fn: ast.FunctionDef) -> str:
+    where = "Observation.validate_steps"
+    hits = []
+    for n in ast.walk(fn):
+        if isinstance(n, ast.If) and any(isinstance(x, ast.Raise) for x in n.body) and "enabled" in ast.unparse(n.test):
+            hits.append(n)
+    if len(hits) != 1:
+        fail(fn if not hits else hits[1], f"{where}: expected exactly one `if <model not enabled>: raise`, found {len(hits)}")
+    n = hits[0]
+    if n.orelse or len(n.body) != 1:
+        fail(n, f"{where}: the enabled check has an else branch / more than a raise")
+    return neg_flag_test(n.test, where)
+
+
+# ------------------------------------------------------------------------------------------ Arguments.__setattr__
+
+
+def args_passthrough(fn: ast.FunctionDef) -> list[str]:
+    where = "Arguments.__setattr__"
+    if len(fn.args.args) != 3:
+        fail(fn, f"{where}: expected (self, key, value)")
+    me, key, value = (a.arg for a in fn.args.args)
+    body = body_no_doc(fn)
+
+    def is_raw_setattr(e):
+        # super().__setattr__(key, value)  |  object.__setattr__(self, key, value)
+        if not (isinstance(e, ast.Call) and isinstance(e.func, ast.Attribute) and e.func.attr == "__setattr__"):
+            return False
+        args = [ast.unparse(a) for a in e.args]
+        f = ast.unparse(e.func.value)
+        return (f == "super()" and args == [key, value]) or (f == "object" and args == [me, key, value])
+
+    def store(x):
+        return ast.unparse(x) == f"{me}._arguments"
+
+    names: list[str] = []
+    i = 0
+    # 1. any number of `if key == "<name>" / key in (...): <raw setattr>; return`
+    while i < len(body) and isinstance(body[i], ast.If) and not body[i].orelse:
+        st = body[i]
+        b = st.body
+        raw = (len(b) == 2 and isinstance(b[0], ast.Expr) and is_raw_setattr(b[0].value) and isinstance(b[1], ast.Return)
+               and b[1].value is None) or (len(b) == 1 and isinstance(b[0], ast.Return) and b[0].value is not None
+                                           and is_raw_setattr(b[0].value))
+        if not raw:
+            break
+        t = st.test
+        if isinstance(t, ast.Compare) and len(t.ops) == 1 and isinstance(t.left, ast.Name) and t.left.id == key:
+            c = t.comparators[0]
+            if isinstance(t.ops[0], ast.Eq) and isinstance(c, ast.Constant) and isinstance(c.value, str):
+                names.append(c.value)
+                i += 1
+                continue
+            if isinstance(t.ops[0], ast.In) and isinstance(c, (ast.Tuple, ast.List, ast.Set)) \
+                    and all(isinstance(x, ast.Constant) and isinstance(x.value, str) for x in c.elts):
+                names += [x.value for x in c.elts]
+                i += 1
+                continue
+        fail(t, f"{where}: names handed to the unmodified __setattr__ are not a list of constants")
+    rest = body[i:]
+    # 2. `if key not in self._arguments: raise AttributeError(...)`   3. `self._arguments[key] = value`
+    ok = (len(rest) == 2 and isinstance(rest[0], ast.If) and not rest[0].orelse and len(rest[0].body) == 1
+          and isinstance(rest[0].body[0], ast.Raise) and "AttributeError" in ast.unparse(rest[0].body[0])
+          and isinstance(rest[0].test, ast.Compare) and len(rest[0].test.ops) == 1
+          and isinstance(rest[0].test.ops[0], ast.NotIn) and ast.unparse(rest[0].test.left) == key
+          and store(rest[0].test.comparators[0])
+          and isinstance(rest[1], ast.Assign) and len(rest[1].targets) == 1
+          and isinstance(rest[1].targets[0], ast.Subscript) and store(rest[1].targets[0].value)
+          and ast.unparse(rest[1].targets[0].slice) == key and ast.unparse(rest[1].value) == value)
+    if not ok:
+        fail(rest[0] if rest else fn, f"{where}: expected `if key not in self._arguments: raise AttributeError` then "
+                                      f"`self._arguments[key] = value`")
+    return names
 
 
 def _bound(q):
@@ -126,7 +299,10 @@ def render(d: dict) -> str:
             f"Definition src_copy_policy : cpolicy := mkCPolicy {tbl(d['proc_fields'])} {tbl(d['group_fields'])}.\n"
             f"Definition src_copy_sites : list (string * cmode) := {tbl(d['sites'])}.\n"
             "Definition src_setter_guards : list (string * string * guard) := [\n"
-            + ";\n".join(f'  ("{c}", "{f}", {g})' for c, f, g in d["guards"]) + "\n].\n")
+            + ";\n".join(f'  ("{c}", "{f}", {g})' for c, f, g in d["guards"]) + "\n].\n"
+            f"Definition src_exec_flag_test : flagtest := {d['exec_test']}.\n"
+            f"Definition src_validate_flag_test : flagtest := {d['validate_test']}.\n"
+            "Definition src_args_passthrough : list string := [" + "; ".join(f'"{n}"' for n in d["passthrough"]) + "].\n")
 
 
 def translate(repo: Path) -> str:
@@ -134,6 +310,7 @@ def translate(repo: Path) -> str:
 
 
 FALLBACK_DATA = dict(
+    exec_test="FTruthy", validate_test="FTruthy", passthrough=["_arguments"],
     proc_fields=[("detector", "Deep"), ("pipeline", "Deep"), ("observation", "Deep")],
     group_fields=[("models", "Deep")],
     sites=[(s, "Deep") for s in ("replace", "create_new_processor", "build_processors", "update_processor")],
